@@ -235,7 +235,7 @@ package bridgesync
 //@   ensures result1 != nil ==> result0 == nil
 //@   ensures result1 == nil ==> result0 != nil
 
-//@ func buildBridgeEventHandler$1 (b, l)
+//@ func buildBridgeEventHandler$1 (b, l | contract, client, bridgeAddr, logger, gasTokenAddress)
 //@   props C01 C03 C05
 //@   requires b != nil && contract != nil
 //@   modifies b.Events, parsedBridge
@@ -243,7 +243,7 @@ package bridgesync
 //@   ensures[one-event-per-log] result == nil ==> len(b.Events) == old(len(b.Events)) + 1 && forall(k, 0, old(len(b.Events)), b.Events[k] == old(b.Events[k]))
 //@   ensures[the-bridge-is-the-decoded-event-at-the-logs-position] result == nil ==> typeIs(b.Events[len(b.Events) - 1], Event) && unbox(b.Events[len(b.Events) - 1], Event).Bridge != nil && unbox(b.Events[len(b.Events) - 1], Event).Claim == nil && unbox(b.Events[len(b.Events) - 1], Event).Bridge.BlockNum == b.Num && unbox(b.Events[len(b.Events) - 1], Event).Bridge.BlockPos == l.Index && unbox(b.Events[len(b.Events) - 1], Event).Bridge.LeafType == parsedBridge.LeafType && unbox(b.Events[len(b.Events) - 1], Event).Bridge.OriginNetwork == parsedBridge.OriginNetwork && unbox(b.Events[len(b.Events) - 1], Event).Bridge.OriginAddress == parsedBridge.OriginAddress && unbox(b.Events[len(b.Events) - 1], Event).Bridge.DestinationNetwork == parsedBridge.DestinationNetwork && unbox(b.Events[len(b.Events) - 1], Event).Bridge.DestinationAddress == parsedBridge.DestinationAddress && unbox(b.Events[len(b.Events) - 1], Event).Bridge.Amount == parsedBridge.Amount && unbox(b.Events[len(b.Events) - 1], Event).Bridge.Metadata == parsedBridge.Metadata && unbox(b.Events[len(b.Events) - 1], Event).Bridge.DepositCount == parsedBridge.DepositCount && unbox(b.Events[len(b.Events) - 1], Event).Bridge.TxHash == l.TxHash
 
-//@ func buildClaimEventHandler$1 (b, l)
+//@ func buildClaimEventHandler$1 (b, l | contract, syncFullClaims, client, bridgeAddr, logger)
 //@   props C03 C05 C20
 //@   requires b != nil && contract != nil && (syncFullClaims ==> client != nil && logger != nil)
 //@   modifies b.Events, parsedClaim, region("bridgesync.Claim.ProofLocalExitRoot"), region("bridgesync.Claim.ProofRollupExitRoot"), region("bridgesync.Claim.MainnetExitRoot"), region("bridgesync.Claim.RollupExitRoot"), region("bridgesync.Claim.DestinationNetwork"), region("bridgesync.Claim.Metadata"), region("bridgesync.Claim.GlobalExitRoot"), region("bridgesync.Claim.FromAddress"), region("bridgesync.Claim.IsMessage")
@@ -286,7 +286,7 @@ package bridgesync
 //@   ensures[what-the-event-said-is-untouched] c.GlobalIndex == old(c.GlobalIndex) && c.BlockNum == old(c.BlockNum) && c.BlockPos == old(c.BlockPos) && c.OriginNetwork == old(c.OriginNetwork) && c.OriginAddress == old(c.OriginAddress) && c.DestinationAddress == old(c.DestinationAddress) && c.Amount == old(c.Amount) && c.TxHash == old(c.TxHash) && c.BlockTimestamp == old(c.BlockTimestamp)
 
 // the callback of the search (the only one in the module): reverted frames are skipped without looking at them
-//@ func (c *Claim) setClaimCalldata$1 (call)
+//@ func (c *Claim) setClaimCalldata$1 (call | c)
 //@   props C20
 //@   requires c != nil && c.GlobalIndex != nil
 //@   modifies c.ProofLocalExitRoot, c.ProofRollupExitRoot, c.MainnetExitRoot, c.RollupExitRoot, c.DestinationNetwork, c.Metadata, c.GlobalExitRoot, c.FromAddress, c.IsMessage
@@ -314,7 +314,7 @@ package bridgesync
 //@   modifies parsedClaimV1
 //@   ensures result1 != nil ==> result0 == nil
 //@   ensures result1 == nil ==> result0 != nil && parsedClaimV1 == result0
-//@ func buildClaimEventHandlerPreEtrog$1 (b, l)
+//@ func buildClaimEventHandlerPreEtrog$1 (b, l | contract, syncFullClaims, client, bridgeAddr, logger)
 //@   props C03 C05 C20
 //@   requires b != nil && contract != nil && (syncFullClaims ==> client != nil && logger != nil)
 //@   modifies b.Events, parsedClaimV1, region("bridgesync.Claim.ProofLocalExitRoot"), region("bridgesync.Claim.ProofRollupExitRoot"), region("bridgesync.Claim.MainnetExitRoot"), region("bridgesync.Claim.RollupExitRoot"), region("bridgesync.Claim.DestinationNetwork"), region("bridgesync.Claim.Metadata"), region("bridgesync.Claim.GlobalExitRoot"), region("bridgesync.Claim.FromAddress"), region("bridgesync.Claim.IsMessage")
